@@ -404,7 +404,7 @@ impl KeyWorld {
             Some(r) => Self::draw_gen(&cfg, r),
             None => Self::default_gen(),
         };
-        KeyWorld { now: cfg.t0.min(tmax), cfg, colls, twins: (0..n).map(|_| None).collect(), names, model: BTreeMap::new(), next_id: 1, peak: vec![0; n], cleared_once: false, last_n: 0, tmax, gen }
+        KeyWorld { now: if narrow { cfg.t0.clamp(0, tmax) } else { cfg.t0 }, cfg, colls, twins: (0..n).map(|_| None).collect(), names, model: BTreeMap::new(), next_id: 1, peak: vec![0; n], cleared_once: false, last_n: 0, tmax, gen }
     }
 
     fn default_gen() -> KeyGen {
@@ -1416,7 +1416,7 @@ impl KeyWorld {
         if g.events.len() > 64 {
             return;
         }
-        for (t, kind) in [(exp - 1, 0u8), (exp, 0u8), (exp, 1u8), (exp, 2u8)] {
+        for (t, kind) in [(exp.saturating_sub(1), 0u8), (exp, 0u8), (exp, 1u8), (exp, 2u8)] {
             g.ev_seq += 1;
             g.events.insert((t, g.ev_seq, kind, k));
         }
@@ -1448,10 +1448,10 @@ impl KeyWorld {
             let mn = *exps.iter().min().unwrap();
             match r.below(7) {
                 0 => 0,
-                1 => *r.pick(&exps) - t,                 // equal to some expiration
-                2 => (*r.pick(&exps) - t - 1).max(0),    // just below one
+                1 => r.pick(&exps).saturating_sub(t),                 // equal to some expiration
+                2 => r.pick(&exps).saturating_sub(t).saturating_sub(1).max(0),    // just below one
                 3 => mx.saturating_sub(t).saturating_add(1), // above all
-                4 => (mn - t).max(0),                    // at the earliest
+                4 => mn.saturating_sub(t).max(0),                    // at the earliest
                 5 => r.range(0, (mx.saturating_sub(t)).max(0) as i64) as i32,
                 _ => 0,
             }
@@ -1493,7 +1493,7 @@ impl World for KeyWorld {
                 if self.now == self.tmax && old != self.tmax {
                     ctx.stats.bump("fault.clock_reaches_end_of_time_line");
                 }
-                ctx.stats.ticks += (self.now - old) as u64;
+                ctx.stats.ticks += (self.now as i64 - old as i64) as u64;
                 match dt {
                     0 => ctx.stats.bump("fault.clock_stall"),
                     1 => ctx.stats.bump("fault.clock_tick"),
@@ -1701,7 +1701,7 @@ impl World for KeyWorld {
                     let t = self.now;
                     let next = self.model.values().map(|e| e.exp).filter(|e| *e > t && *e != self.tmax).min();
                     if let Some(e) = next {
-                        let dt = if r.chance(2, 3) { e - t } else { (e - t - 1).max(0) };
+                        let dt = if r.chance(2, 3) { e.saturating_sub(t) } else { e.saturating_sub(t).saturating_sub(1).max(0) };
                         return Op::Tick { dt };
                     }
                 }
@@ -1729,7 +1729,7 @@ impl World for KeyWorld {
                             _ => Op::KSweep,
                         };
                         self.gen.pending.push_back(follow);
-                        return Op::Tick { dt: t - self.now };
+                        return Op::Tick { dt: t.saturating_sub(self.now) };
                     }
                 }
                 W_CLEAR => {
